@@ -1,4 +1,5 @@
 import MemcVerif.Proofs.Frames
+import MemcVerif.Proofs.TablesTie
 /-!
 # C10 — no client input can crash, hang or bloat request processing
 
@@ -211,6 +212,24 @@ theorem C10_retained_bytes_bounded (limit : Nat) (st : PState) (buf : Bytes) :
   · subst this; simp; omega
   · subst this; simp; omega
 
+/-! ## the tables of this property are the source's (regenerated from /repo on every run: `tools/gentables.py`) -/
+
+/-- the thresholds the model's `requestValid` applies (extras ≤ 20, key ≤ 250) are the literals of `request_valid` in
+    `binary_codec.rs` as it is now -/
+theorem C10_limits_are_the_sources : Holds Gen.limits (fun l =>
+      requestValid { hdr0 with extrasLen := l.1, bodyLen := l.1 + 1 } true = true ∧
+      requestValid { hdr0 with extrasLen := l.1 + 1, bodyLen := l.1 + 2 } true = false ∧
+      requestValid { hdr0 with keyLen := l.2, bodyLen := l.2 } true = true ∧
+      requestValid { hdr0 with keyLen := l.2 + 1, bodyLen := l.2 + 1 } true = false) := tie_limits
+
+/-- `OpCodeMax` and the set of opcodes that reach a parser: every value of the opcode byte that `parse_request` does not
+    dispatch is rejected by the model too, and every dispatched one goes to the same parser -/
+theorem C10_opcode_table_is_the_sources :
+    Holds Gen.opcodeMax (fun n => n = OPCODE_MAX) ∧
+    Holds Gen.dispatch (fun t => t.all (fun p => (opGroup p.1).idx == p.2) = true) ∧
+    Holds Gen.dispatch (fun t => (List.range 256).all (fun op => t.any (fun p => p.1 == op) || (opGroup op).idx == 8) = true) :=
+  ⟨tie_opcode_max, tie_dispatch, tie_dispatch_complete⟩
+
 end Memc
 
 #print axioms Memc.requestValid_bounds
@@ -222,3 +241,5 @@ end Memc
 #print axioms Memc.decode1_needMore_bufOK
 #print axioms Memc.C10_buffer_logic
 #print axioms Memc.C10_retained_bytes_bounded
+#print axioms Memc.C10_limits_are_the_sources
+#print axioms Memc.C10_opcode_table_is_the_sources
